@@ -22,7 +22,7 @@ pub fn meta(ctx: &Ctx) -> Meta {
 
 fn max_epochs(ctx: &Ctx) -> usize {
     if ctx.tier.thorough() {
-        8
+        10
     } else {
         6
     }
